@@ -71,6 +71,8 @@ func clip(s string) string {
 	return strconv.QuoteToASCII(s)
 }
 
+var sampling = true
+
 // ---------- pair check ----------
 
 func crossDefined(ka, kb string) bool {
@@ -113,7 +115,7 @@ func pairViolation(a, b tengo.Object, rel string, script bool) string {
 	nontrivial := (rel != "independent" && rel != "grid") || (ka != kb && crossDefined(ka, kb))
 	da, db := tv.Describe(a), tv.Describe(b)
 	ev.Case("P|"+da+"|"+db+"|"+strconv.FormatBool(script), nontrivial, cls...)
-	if nontrivial && rel != "grid" && rel != "same" && ev.WantSample() && len(da)+len(db) < 160 && len(da) > 8 {
+	if sampling && nontrivial && rel != "same" && ev.WantSample() && len(da)+len(db) < 160 && len(da) > 8 {
 		ev.Sample(map[string]interface{}{"kind": "pair", "a": da, "b": db, "rel": rel, "script": script,
 			"a==b": res.R[0]["eq"].String(), "a<b": res.R[0]["lt"].String(), "a>b": res.R[0]["gt"].String()})
 	}
@@ -228,7 +230,7 @@ func unaryViolation(x, d tengo.Object, script, strict bool) string {
 	}
 	cls = append(cls, c...)
 	ev.Case("U|"+dx+"|"+tv.Describe(d)+"|"+strconv.FormatBool(script), nontrivial, cls...)
-	if nontrivial && ev.WantSample() && len(dx) < 120 && len(dx) > 12 {
+	if sampling && nontrivial && ev.WantSample() && len(dx) < 120 && len(dx) > 12 {
 		ev.Sample(map[string]interface{}{"kind": "unary", "x": dx, "default": tv.Describe(d), "script": script})
 	}
 	return ""
@@ -322,6 +324,8 @@ func gridRel(i, j int, a, b tengo.Object) string {
 // others) by scripts; every boundary value through the unary checks on both
 // paths with an undefined and a non-undefined default.
 func TestGrid(t *testing.T) {
+	sampling = false // samples come from the generated cases
+	defer func() { sampling = true }()
 	vals := gridValues()
 	for i, a := range vals {
 		for j, b := range vals {
